@@ -25,10 +25,51 @@ def _is_hex_id(x):
     return isinstance(x, str) and len(x) == 32 and all(c in "0123456789abcdef" for c in x)
 
 
+class FakeUUIDModule:
+    """stands in for the `uuid` module: uuid4() hands out recognisable tokens, anything else is
+    not the assumed-fresh source (A-uuid is about uuid4 only)"""
+
+    class _Tok:
+        def __init__(self, n):
+            self.hex = "ABCDEF0123456789abcdef00" + f"{n:08x}"
+
+        def __str__(self):
+            return self.hex
+
+    def __init__(self):
+        self.issued = []
+
+    def uuid4(self):
+        t = FakeUUIDModule._Tok(len(self.issued))
+        self.issued.append(t)
+        return t
+
+    def __getattr__(self, name):
+        raise AttributeError(f"uuid.{name} is not the assumed-fresh id source")
+
+
 def unit_ctor(model):
     S = extract.Scratch(model)
     M, Rc = S.cls, S.rating_cls
     recs = []
+    # ---- the id of a new rating is the hex of one fresh uuid4() call (A-uuid then gives uniqueness)
+    S2 = extract.Scratch(model)
+    fake = FakeUUIDModule()
+    S2.ns["uuid"] = fake
+    ctx = Ctx("U")
+
+    def run_id(ctx):
+        del fake.issued[:]
+        m, _ = game.mk_model(ctx, S2, assume_domain=False)
+        outs = [call(m.rating), call(m.rating, mu=ctx.number("x_mu"), sigma=ctx.number("x_sigma"), name="bob"),
+                call(S2.cls.create_rating, [ctx.number("x_mu"), ctx.number("x_sigma")])]
+        ok = all(o[0] == "return" for o in outs) and len(fake.issued) == 3
+        if ok:
+            ok = all(o[1].id == tok.hex.lower() for o, tok in zip(outs, fake.issued))
+        ctx.oblige(f"C20/{model}/rating/id-is-one-fresh-uuid4-per-construction", bool(ok),
+                   meta={"fn": f"{model}Rating.__init__", "replay": {"kind": "c20_idsource", "model": model}})
+    explore(ctx, run_id)
+    recs += settle(ctx.all_obls, mode="U", unbounded=True)
     fnr = f"{model}.rating"
     fnc = f"{model}.create_rating"
 
